@@ -18,6 +18,8 @@ from xfabsa.symeval import Evaluator, sym_array, Arr, Opaque, scalar, materialis
 
 
 def run(ctx):
+    from xfabsa import numeric as _N
+    _N.alias_rule(ctx, 'C08', ['xfab/structure.py', 'xfab/sg.py'])
     ctx.rule("sum", "F == explicit weighted sum (all ADP kinds, dispersion present / None entry / None table)")
     ctx.rule("args", "stl = sintl(ucell, hkl); cell_invert(ucell); FormFactor(type of the atom, stl)")
     ctx.rule("beta", "Uij2betaij == 2 pi^2 a*_i a*_j U_ij with U layout [[11,12,13],[12,22,23],[13,23,33]] from [11,22,33,23,13,12]")
